@@ -6,7 +6,7 @@
    Chain/RestartCuts.v.  Which states are durable ([dur]) is an arbitrary input: the
    theorems hold for every commit policy and every behaviour of the storage engines
    (C20 / C24) that keeps the key-value batches atomic. *)
-From GV Require Import Lib.Tactics Chain.Tree Chain.Canonical Chain.CanonicalProofs Chain.CanonicalInv Chain.CanonicalTop Chain.CanonicalWitness Chain.Restart Chain.RestartProofs Chain.RestartCuts Chain.RestartPath Chain.RestartPathProofs.
+From GV Require Import Lib.Tactics Chain.Tree Chain.Canonical Chain.CanonicalProofs Chain.CanonicalInv Chain.CanonicalTop Chain.Restart Chain.RestartProofs Chain.RestartCuts Chain.RestartReorgCut Chain.RestartReimport Chain.RestartPath Chain.RestartPathProofs.
 Local Open Scope N_scope.
 
 (* After ANY database image and ANY set of durable states: if NewBlockChain comes up, the
@@ -41,17 +41,17 @@ Proof. exact restart_linked. Qed.
 Print Assumptions C39_restart_canon_invariant.
 
 (* The same over ALL histories of InsertChain / trie commits / freezes from the fresh chain
-   and all crash cuts after the last operation or right after a block-data batch inside it
-   (CutBlock), with any durable-state set: head has state, heads ordered, index linked.
-   FULL STATEMENT (not proved in general): also for the cut right before a head-marker
-   batch (CutHead).  Proved for CutHead when the block extends the head (no reorg:
-   crash_state_head_cut_noreorg); when reorg ran before the cut, the repaired code is
-   covered by the correspondence and by fixed_ok, and the unrepaired code REFUTES it
-   (C39_reorg_crash_window_refuted). *)
-Theorem C39_crash_states_consistent_partial :
+   and ALL crash cuts — after the last operation, right after a block-data batch inside an
+   import (CutBlock), right before a head-marker batch (CutHead), with or without a reorg
+   having run before it — with any durable-state set, for the repaired reorg
+   (c_legacy_reorg = false: the head markers are pulled down in the batch that deletes the
+   canonical markers): head has state, heads ordered, index linked.  The unrepaired code
+   REFUTES it (C39_reorg_crash_window_refuted). *)
+Theorem C39_crash_states_consistent :
   forall (T : tree), wf_tree T -> (forall g, T 0 = Some g -> T (b_parent g) = None) ->
   forall (cf : cfg) (fuel : nat) (ops : list sop) (c : cut) (p : pst) es (dur : N -> bool) (p' : pst),
-    run_to_cut T cf fuel (mkp genesis_db 0) ops c = (ROk p, es) -> (forall x, c <> CutHead x) ->
+    c_legacy_reorg cf = false ->
+    run_to_cut T cf fuel (mkp genesis_db 0) ops c = (ROk p, es) ->
     new_blockchain T cf fuel (crash p dur) = ROk p' ->
     let st := kv p' in
     (dur (hd_block st) = true \/ hd_block st = 0) /\
@@ -62,22 +62,23 @@ Theorem C39_crash_states_consistent_partial :
                      canon st n = Some (b_parent b)) /\
       (exists bb, T (hd_block st) = Some bb /\ b_number bb <= b_number hb /\
                   canon st (b_number bb) = Some (hd_block st)).
-Proof. exact crash_states_linked. Qed.
-Print Assumptions C39_crash_states_consistent_partial.
+Proof. exact crash_states_linked_all. Qed.
+Print Assumptions C39_crash_states_consistent.
 
 (* no_loss_below_persisted: at and below the restart head nothing is lost — the canonical
-   index is what it was before the crash and its blocks are still stored (same histories
-   and cuts as above) ... *)
-Theorem C39_no_loss_below_head_partial :
+   index is what it was before the crash and its blocks are still stored (all histories,
+   all cuts) ... *)
+Theorem C39_no_loss_below_head :
   forall (T : tree), wf_tree T -> (forall g, T 0 = Some g -> T (b_parent g) = None) ->
   forall (cf : cfg) (fuel : nat) (ops : list sop) (c : cut) (p : pst) es (dur : N -> bool) (p' : pst),
-    run_to_cut T cf fuel (mkp genesis_db 0) ops c = (ROk p, es) -> (forall x, c <> CutHead x) ->
+    c_legacy_reorg cf = false ->
+    run_to_cut T cf fuel (mkp genesis_db 0) ops c = (ROk p, es) ->
     new_blockchain T cf fuel (crash p dur) = ROk p' ->
     forall n, n <= num_of T (hd_block (kv p')) ->
       canon (kv p') n = canon (kv p) n /\
       (forall h, canon (kv p) n = Some h -> is_known (kv p') h = true).
-Proof. exact no_loss_crash. Qed.
-Print Assumptions C39_no_loss_below_head_partial.
+Proof. exact no_loss_crash_all. Qed.
+Print Assumptions C39_no_loss_below_head.
 
 (* ... and, without a snapshot root to pass, the restart head is the NEWEST block with
    durable state on the old head's (stored) ancestor path: every ancestor z of the old
@@ -90,15 +91,48 @@ Theorem C39_rewind_lands_on_newest_state :
 Proof. exact rewind_newest. Qed.
 Print Assumptions C39_rewind_lands_on_newest_state.
 
-(* reimport_converges, the proved part: re-importing after the restart keeps the
-   invariant.  FULL STATEMENT (checked by the Go oracle and the correspondence on every
-   case, not proved): the re-import of the remaining canonical blocks returns no error and
-   ends with head block = head header = the tip of the never-crashed run. *)
-Theorem C39_reimport_keeps_invariant_partial :
+(* reimport_converges.  After ANY restart that came up ([new_blockchain] = ROk p') with a
+   head whose state is available (C39_restart_head_has_state; the only other case is a
+   stateless genesis, which waits for a state sync), importing ANY contiguous segment of
+   the tree that starts on the restart head — in particular the blocks the crash lost —
+   returns no error and ends with head block = head header = the tip of the segment,
+   stored and with state: the head of the node that never crashed.  Whatever the image
+   holds of the segment (stored blocks with or without state, the old chain's or another
+   chain's canonical markers above the head, a head header above the head block) — the
+   known-block path (writeKnownBlock) and the execution path (writeBlockAndSetHead) are
+   both covered, no reorg and no pruned-ancestor path can arise.  Guards, all explicit: the
+   tree is well formed and the genesis parent names no block; the segment resolves, is
+   contiguous, starts on the head; the fuel (a model artefact) exceeds every block number of
+   the segment and every canonical height.  This is the model's import, which keeps the
+   state of every imported block available during the run (hash scheme: TriesInMemory;
+   path scheme: the diff layers) — for the path scheme the one further way an import can
+   fail, the out-of-order state-history append of diskLayer.commit, needs history head =
+   disk layer id, which C39_history_head_is_disk_layer gives at every point of every
+   history of runs, shutdowns and crashes. *)
+Theorem C39_reimport_converges :
+  forall (T : tree), wf_tree T -> (forall g, T 0 = Some g -> T (b_parent g) = None) ->
+  forall (c : cfg) (fuel : nat) (p p' : pst) (ids : list N) (hs : list hdr) (x0 : hdr) (r : list hdr)
+         (p'' : pst) (e : option err),
+    new_blockchain T c fuel p = ROk p' ->
+    avail (kv p') (hd_block (kv p')) = true ->
+    (0 < fuel)%nat ->
+    resolve_all T ids = Some hs -> contiguous hs = true -> hs = x0 :: r ->
+    b_parent (snd x0) = hd_block (kv p') ->
+    (forall z, In z hs -> hnum z < N.of_nat fuel) ->
+    (forall n, N.of_nat fuel <= n -> canon (kv p') n = None) ->
+    reimport T fuel p' ids = (p'', e) ->
+    let tip := fst (last hs x0) in
+    e = None /\ hd_block (kv p'') = tip /\ hd_header (kv p'') = tip /\ avail (kv p'') tip = true /\
+    is_known (kv p'') tip = true.
+Proof. exact reimport_after_restart. Qed.
+Print Assumptions C39_reimport_converges.
+
+(* ... and any re-import, converging or not, keeps the C38 invariant *)
+Theorem C39_reimport_keeps_invariant :
   forall (T : tree), wf_tree T -> forall fuel p l p' e,
     reimport T fuel p l = (p', e) -> Inv T (kv p) -> Inv T (kv p').
 Proof. exact reimport_inv. Qed.
-Print Assumptions C39_reimport_keeps_invariant_partial.
+Print Assumptions C39_reimport_keeps_invariant.
 
 (* The consistency statement is FALSE of the code before the repair of reorg() (legacy
    flag): a crash between reorg's index-deletion batch and writeHeadBlock leaves the head
